@@ -306,7 +306,7 @@ def r6_parent_counting(rule, root=None):
     facts.append(("every non-constant node gets a fresh SSA slot", m is not None and "(slot_count+=1);" in t1 and t1.fmatch("mapping.insert(%s,Slot::Reg($I))" % p1["node"], bind=m) is not None))
     facts.append(("constants map to their own value", t1.fmatch("Op::Const($C)=>mapping.insert(%s,Slot::Immediate($C.0))" % p1["node"]) is not None))
     mi = t2.fmatch("letSlot::Reg($I)=mapping[&%s]else{continue;};" % p2["node"])
-    facts.append(("inputs read the index their variable was given", mi is not None and (t2.fmatch("Op::Input($V)=>{let$A=vars[$V];SsaOp::Input($I,$A.try_into().unwrap())}", bind=mi) is not None or t2.fmatch("Op::Input($V)=>SsaOp::Input($I,vars[$V].try_into().unwrap())", bind=mi) is not None)))
+    facts.append(("inputs read the index their variable was given", mi is not None and (t2.fmatch("Op::Input($V)=>{let$A=vars[$V];SsaOp::Input($I,$A.try_into().unwrap())}", bind=mi) is not None or t2.fmatch("Op::Input($V)=>SsaOp::Input($I,vars[$V].try_into().unwrap())", bind=mi) is not None or t2.fmatch("Op::Input($V)=>{SsaOp::Input($I,vars[$V].try_into().unwrap())}", bind=mi) is not None)))
     mo = t.fmatch("for($K,$R)inroots.iter().enumerate(){")
     ok_out = False
     ok_const = False
